@@ -1,99 +1,127 @@
 import SockModel.Drive.C18
+import SockModel.Spec.C15
 /-! Driver for C15 (peer failure at any point is reported, never fatal).
 
-Transcripts come from `harness/scen/peerfail.cpp` and use the event vocabulary of the C18
-driver, whose machinery is reused: the kernel's (and, for TLS, the engine's) answers are replayed
-into the model, which must make the same calls and produce the same outcome - i.e. the observed
-outcome is a member of the set the model allows for this reaction of the kernel.  `Spec.C15` below
-looks at observations only. -/
+Transcripts come from `harness/scen/peerfail.cpp` and use the event vocabulary of the C18 driver.
+
+* **spec**: every line is parsed into a typed observation (`toObs`, `PeerFail.Spec.Obs`) and the property
+  predicate of `Spec/C15.lean` - `specRun`, then `specFinal` - is evaluated on the observations only.  This file
+  contains no property clause of its own (one source of truth; `PeerFail.Spec.model_satisfies_spec_partial` proves that the
+  predicate accepts every trace of the plain-socket model).
+* **correspondence**: the machinery of the C18 driver is reused (`C18.go` with hooks that check nothing): the
+  kernel's (and, for TLS, the engine's) answers are replayed into the model, which must make the same calls and
+  produce the same outcome - i.e. the observed outcome is a member of the set the model allows for this
+  reaction of the kernel.
+-/
 namespace SockModel.Drive.C15
 open SockModel SockModel.Drive SockModel.Net SockModel.Tls SockModel.Drive.C18
+open SockModel.PeerFail.Spec
 
-def setupC15 (m : List (String × String)) : List EpSt × String :=
+def setupC15 (m : List (String × String)) : List C18.EpSt × String :=
   let kind := kvGet m "x"
   ([{ name := "x", kind := kind, tls := kvGet m "tls" == "1", driver := if kind == "async" then "dx" else "",
       rsz := (kvGet m "rsz").toNat?.getD 4096 }], "none")
 
-/-- facts are collected as word lists in `finals`:
-`kill <kind> <psent> <pread>`, `threw-after-kill`, `enq`, `futres <res>`, `disc-before-enq`, `destroyed` -/
-def evC15 (d : DSt) (e : Ev) : Except String DSt := do
-  let d ← specEv { d with plain := "none" } e
-  let killed := d.finals.any (·.head? == some "kill")
-  match e with
-  | .other ("peer" :: "kill" :: kind :: sent :: read :: _) =>
-    let num := fun (t : String) => match t.splitOn "=" with | [_, v] => v | _ => "0"
-    pure { d with finals := ["kill", kind, num sent, num read] :: d.finals }
-  | .other ["destroy", _] => pure { d with finals := ["destroyed"] :: d.finals }
-  | .ret "x" ("throw" :: cls :: what) =>
-    if cls == "logic_error" then throw s!"x: std::logic_error escaped ({cls}) - a peer failure must be reported as a runtime error"
-    else
-      let recvOp := (d.ep? "x").map (·.recvOp) == some true
-      let d := if recvOp ∧ what.contains "send:" then { d with finals := ["send-error-ended-receive"] :: d.finals } else d
-      pure (if killed then { d with finals := ["threw-after-kill"] :: d.finals } else d)
-  | .disc "x" why =>
-    pure (if why.contains "send:" then { d with finals := ["send-error-ended-receive"] :: d.finals } else d)
-  | .ret "dx" ("throw" :: rest) => throw s!"Driver::Step threw instead of reporting through the handlers: {" ".intercalate rest}"
-  | .enq _ _ =>
-    let afterDisc := (d.ep? "x").map (·.discSeen) != some 0
-    pure { d with finals := (if afterDisc then ["enq", "after-disc"] else ["enq", "live"]) :: d.finals }
-  | .fut _ i res =>
-    -- the i-th enqueued buffer (oldest first)
-    let enqs := (d.finals.filter (·.head? == some "enq")).reverse
-    let late := match enqs[i]? with | some ["enq", "after-disc"] => true | _ => false
-    if res == "ok" && late then throw s!"future {i} of a buffer enqueued after the disconnect reports success"
-    else if res == "pending" then throw s!"future {i} still unresolved after the socket was destroyed"
-    else if res == "broken" ∧ ¬ d.finals.any (· == ["destroyed"]) then
-      throw s!"future {i} was abandoned (broken promise) while the socket is still alive - its failure was swallowed"
-    else pure { d with finals := ["futres", res] :: d.finals }
-  | _ => pure d
+/-! ### parsing lines into observations -/
 
-def finalC15 (d : DSt) : Option String := Id.run do
-  let some ep := d.ep? "x" | return some "no endpoint"
-  let got := hexOf d "got" "x"
-  let st := stateOf d "x"
-  let psent := (kvGet st "psent").toNat?.getD 0
-  let kill := d.finals.find? (·.head? == some "kill")
-  let (kind, pread) := match kill with
-    | some [_, k, _, r] => (k, r.toNat?.getD 0)
-    | _ => ("", 0)
-  -- what was delivered is a prefix of what the peer sent
-  if ¬ got.isPrefixOf d.spay then return some s!"x: delivered bytes are not a prefix of what the peer sent ({got.length} bytes)"
-  if got.length > psent then return some s!"x: delivered {got.length} bytes, the peer only sent {psent}"
-  if kind == "" then return none
-  let order := kvGet (kvOf (d.finals.findSome? (fun w => if w.head? == some "after" then some w else none) |>.getD [])) "order"
-  let big := (kvGet (kvOf (d.finals.findSome? (fun w => if w.head? == some "after" then some w else none) |>.getD [])) "big").toNat?.getD 0
-  let threw := d.finals.any (· == ["threw-after-kill"])
-  let xsentAtKill := (kvGet (kvOf (d.finals.findSome? (fun w => if w.head? == some "pre" then some w else none) |>.getD [])) "xsent").toNat?.getD 0
-  -- the failure is reported
-  if ep.kind == "async" then
-    if ep.discSeen ≠ 1 ∧ order ≠ "" then return some s!"x: disconnect handler ran {ep.discSeen} times after the peer's {kind}"
-    let enqs := (d.finals.filter (·.head? == some "enq")).length
-    let futs := (d.finals.filter (·.head? == some "futres")).length
-    if d.finals.any (· == ["destroyed"]) ∧ enqs ≠ futs then return some s!"x: {enqs} buffers were enqueued but {futs} futures resolved or broke"
-  else
-    if order.contains 'r' ∧ ¬ threw then return some s!"x: Receive never reported the peer's {kind} (no exception)"
-    if order.contains 's' ∧ kind ≠ "shutwr" ∧ big ≥ 1000000 ∧ ¬ threw then
-      return some s!"x: Send of {big} more bytes never reported the peer's {kind} (no exception)"
-  -- orderly close: the complete stream
-  let orderly := kind == "shutwr" ∨ (kind == "close" ∧ pread ≥ xsentAtKill)
-  let readFirst := ep.kind == "async" ∨ order.startsWith "r"
-  if orderly ∧ readFirst ∧ order ≠ "" ∧ got.length ≠ psent then
-    if ep.tls ∧ d.finals.any (· == ["send-error-ended-receive"]) then
-      return some s!"tls-write-error-in-receive: x (TLS) reported the peer's orderly {kind} through a failed SEND inside Receive (session tickets), delivering {got.length} of the {psent} bytes the peer had sent"
-    return some s!"x: orderly {kind} after the peer had sent {psent} bytes, but only {got.length} were delivered before the report"
-  return none
+def phaseOf (c : Char) : Phase := if c == 'r' then .r else if c == 's' then .s else .other
 
-/-- op lines the spec needs are remembered as well -/
-def hooksC15 : Hooks := { final := finalC15, ev := evC15, setup := setupC15 }
+def killKindOf (k : String) : KillKind :=
+  if k == "close" then .close else if k == "shutwr" then .shutwr else if k == "rst" then .rst else .other k
 
-partial def runWith (C : Cfg) (body : List String) : Verdict :=
-  -- `after ...` op lines and the `-> pre done ...` observation are kept for the spec
-  let extra := body.filterMap fun l =>
-    match words l with
-    | "after" :: r => some ("after" :: r)
-    | "->" :: "pre" :: "done" :: r => some ("pre" :: r)
+def futOfWord (r : String) : Fut :=
+  if r == "ok" then .ok else if r == "exn" then .exn else if r == "pending" then .pending
+  else if r == "broken" then .broken else .other
+
+def apiOpOf (op : String) : ApiOp := if op == "send" then .send else if op == "recv" then .recv else .other
+
+/-- an event line (`-> <event>`) -/
+def evObs : Ev → Option Obs
+  | .api who op args => if who == "x" then some (.api (apiOpOf op) (args.head?.bind String.toInt?)) else none
+  | .os who (.poll _ t ready) => if who == "x" then some (.poll t ready) else none
+  | .os who (.send _ ns _) => some (.send who ns)
+  | .ret who rest =>
+    if who == "x" then
+      match rest with
+      | "throw" :: cls :: what => some (.ret (.threw (cls == "logic_error") (what.contains "send:")))
+      | _ => some (.ret .returned)
+    else if who == "dx" then
+      match rest with
+      | "throw" :: r => some (.stepThrew (" ".intercalate r))
+      | _ => none
+    else none
+  | .rx who n => if who == "x" then some (.rx n) else none
+  | .disc who why => if who == "x" then some (.disc (why.contains "send:")) else none
+  | .enq _ _ => some .enq
+  | .fut _ i res => some (.fut i (futOfWord res))
+  | .other ("peer" :: "kill" :: kind :: _ :: read :: _) =>
+    let num := match read.splitOn "=" with | [_, v] => v | _ => "0"
+    some (.kill (killKindOf kind) (num.toNat?.getD 0))
+  | .other ["destroy", _] => some .destroy
+  | _ => none
+
+/-- one transcript line (op line or `-> …` observation line) as a typed observation; `none`: the line has no
+meaning for the property -/
+def toObs (l : String) : Option Obs :=
+  match words l with
+  | "->" :: "crash" :: x => some (.abort .crash (" ".intercalate x))
+  | "->" :: "hang" :: x => some (.abort .hang (" ".intercalate x))
+  | "->" :: "killed" :: x => some (.abort .killed (" ".intercalate x))
+  | "->" :: "harness-error" :: _ => none
+  | "->" :: "setup" :: "ok" :: kvs =>
+    let m := kvOf kvs
+    some (.payload ((hexDecode (if kvGet m "spay" == "" then kvGet m "ppay" else kvGet m "spay")).getD []))
+  | "->" :: "loopend" :: _ :: _ => none
+  | "->" :: "wire" :: _ => none
+  | "->" :: "rawgot" :: _ => none
+  | "->" :: "rawsent" :: _ => none
+  | "->" :: "got" :: rest =>
+    match rest with
+    | ["x", h] => some (.got ((hexDecode h).getD []))
+    | "x" :: _ => some (.got [])
     | _ => none
-  go C hooksC15 { finals := extra, strictInit := false } body
+  | "->" :: "state" :: rest =>
+    match rest with
+    | "x" :: kvs => some (.state ((kvGet (kvOf kvs) "psent").toNat?.getD 0))
+    | _ => none
+  | "->" :: "pre" :: "done" :: r => some (.pre ((kvGet (kvOf r) "xsent").toNat?.getD 0))
+  | "->" :: ev => evObs (parseEv ev)
+  | "setup" :: kvs =>
+    let m := kvOf kvs
+    some (.setup (kvGet m "x" == "async") (kvGet m "tls" == "1"))
+  | "after" :: r =>
+    let m := kvOf r
+    some (.after ((kvGet m "order").toList.map phaseOf) ((kvGet m "big").toNat?.getD 0))
+  | _ => none
+
+def isHarnessError (l : String) : Option String :=
+  match words l with
+  | "->" :: "harness-error" :: x => some ("harness error: " ++ " ".intercalate x)
+  | _ => none
+
+/-- the lines up to the first `-> harness-error` line (the harness itself gave up there: not a verdict about the
+library), and that line's text -/
+def cutAtHarnessError : List String → List String × Option String
+  | [] => ([], none)
+  | l :: rest =>
+    match isHarnessError l with
+    | some m => ([], some m)
+    | none => let (a, b) := cutAtHarnessError rest; (l :: a, b)
+
+/-- correspondence only: the C18 walker with hooks that check nothing -/
+def hooksCorr : Hooks := { final := fun _ => none, ev := fun d _ => .ok d, setup := setupC15 }
+
+def runWith (C : Cfg) (body : List String) : Verdict :=
+  let (pre, herr) := cutAtHarnessError body
+  match specRun {} (pre.filterMap toObs) with
+  | .error m => Verdict.spec m
+  | .ok s =>
+    match herr with
+    | some m => Verdict.corr m
+    | none =>
+      match specFinal s with
+      | some m => Verdict.spec m
+      | none => go C hooksCorr { strictInit := false } body
 
 def runCase (body : List String) : Verdict := runWith Cfg.current body
 
